@@ -63,6 +63,21 @@ def _conn_calls(f):
     return out
 
 
+def _thread_targets(cls) -> set[str]:
+    """Methods of cls started as `Thread(target=self.<m>, ...)`."""
+    out = set()
+    for m in cls.methods.values():
+        for c in ast.walk(m.node):
+            if isinstance(c, ast.Call) and norm(c.func) in (
+                    'Thread', 'threading.Thread'):
+                for k in c.keywords:
+                    if k.arg == 'target' and isinstance(
+                            k.value, ast.Attribute) and norm(
+                            k.value.value) == 'self':
+                        out.add(k.value.attr)
+    return out
+
+
 def recv_rule(ctx: Ctx, rep: Report) -> None:
     RV = 'RECV'
     n = 0
@@ -89,6 +104,29 @@ def recv_rule(ctx: Ctx, rep: Report) -> None:
                             or handler_names(h.stmt) & LOSS]
                 qn = f'{cls.name}.{f.name}'
                 what = f'`{norm(c)[:40]}`'
+                # In a thread's main function an exception that is not
+                # caught only ends that thread: the process stays alive and
+                # deaf.  There, the handler must cover *every* way a dead
+                # peer shows up: end of file and the OS-level resets.
+                if f.name in _thread_targets(cls) and catching:
+                    names = set().union(*[handler_names(h.stmt) for h in hs])
+                    universal = any(not handler_names(h.stmt) for h in hs) \
+                        or bool(names & {'Exception', 'BaseException'})
+                    full = universal or (
+                        'EOFError' in names
+                        and bool(names & {'OSError', 'ConnectionError'}))
+                    rep.count()
+                    rep.check(
+                        full, RV, qn + ':coverage', f.path, c.lineno,
+                        f'{what}: the handler covers end-of-file and '
+                        'OS-level connection loss',
+                        f'{what} runs in the thread function {qn}, whose '
+                        f'handler catches only {sorted(names)}: a connection '
+                        'reset or broken pipe (OSError) escapes, ends the '
+                        'thread without the terminating effect, and the '
+                        'process stays alive without a receiver',
+                        key='coverage',
+                    )
                 if not catching:
                     rep.ok(RV, qn, f.path, c.lineno,
                            f'{what}: connection loss propagates to the '
